@@ -429,6 +429,17 @@ func closure(tree interface{}) []Mut {
 			add(p, "str-badutf8", "\xff"+t)
 			add(p, "str-b64-5bytes", "AAAAAAA=")
 
+			// a string that holds 8..40 base64url bytes (nonce / iv / tag like): the same encoding of other lengths
+			for _, enc := range []*base64.Encoding{base64.URLEncoding, base64.RawURLEncoding} {
+				if b, err := enc.DecodeString(t); err == nil && len(b) >= 8 && len(b) <= 40 {
+					for _, n := range []int{0, 1, 11, 12, 13, 16, 24, 32} {
+						add(p, fmt.Sprintf("str-b64-len%d", n), enc.EncodeToString(bytes.Repeat([]byte{0xA5}, n)))
+					}
+
+					break
+				}
+			}
+
 			if i := strings.Index(t, "#"); i > 0 {
 				add(p, "str-nofrag", t[:i])
 			}
